@@ -1449,6 +1449,13 @@ func (c *compiler) compileArray(e *Array) error {
 			(i < l-1 && c.codes[pc+i*2+l+1].op != opjump) {
 			return nil
 		}
+		// each element has to leave the list: ((1, .) | 2) has the same
+		// instructions but jumps to the following constant
+		if i < l-1 {
+			if j := c.codes[pc+i*2+l+1].v.(int); j != pc+l*3-1 && c.codes[j].op != opjump {
+				return nil
+			}
+		}
 	}
 	v := make([]any, l)
 	for i := range l {
